@@ -528,3 +528,11 @@ M("c19-component-node-stays", "C19", "cola/libdialect/graphs.cpp",
 M("c19-neutral-rename", "C19", "cola/libdialect/peeling.cpp",
   "        vector<Stem_SP> stems = makeStemsFromLeaves(leaves);\n        // Cut the leaves out of the graph.\n        buckets.severNodes(leaves);",
   "        vector<Stem_SP> stems = makeStemsFromLeaves(leaves);\n        const size_t nStems = stems.size(); (void) nStems;\n        buckets.severNodes(leaves);", expect="silent")
+
+# ---------------------------------------------------------------- C13 corner tables
+M("c13-straight-corner-swapped", "C13", "cola/libtopology/topology_constraints_constructor.cpp",
+  "             ? (nodeLeft ? EdgePoint::TL : EdgePoint::BL)\n             : (nodeLeft ? EdgePoint::TR : EdgePoint::BR);",
+  "             ? (nodeLeft ? EdgePoint::BL : EdgePoint::TL)\n             : (nodeLeft ? EdgePoint::TR : EdgePoint::BR);", mention=["CORNER-TABLES", "createStraightConstraint"])
+M("c13-offset-sign-y", "C13", "cola/libtopology/topology_graph.cpp",
+  "        (dim==vpsc::YDIM && (rectIntersect == BL || rectIntersect == BR)))", "        (dim==vpsc::YDIM && (rectIntersect == BL || rectIntersect == TL)))",
+  mention=["CORNER-TABLES", "offset"])
